@@ -3,6 +3,7 @@
 -/
 import LabreaModel.MonadLemmas
 import LabreaModel.ResolveLemmas
+import LabreaModel.Eval
 namespace Labrea
 
 /-- **template_subst.** A Template evaluates to `str(resolve(text, options overlaid by {":name:": value}))`:
@@ -70,6 +71,25 @@ theorem template_keys_structure (run : Run) (n id : Nat) (t : String) (o : V) (o
 theorem templatedStrings_nested :
     templatedStrings (.dict [("a", .list [.str "{X}", .dict [("p", .str "{Y}/{Z}")]]), ("b", .int 1)]) = ["{X}", "{Y}/{Z}"] := by
   decide +kernel
+
+/-! ### known finding F26 (kernel-evaluated): an option value that refers to a template parameter is
+    substituted by `evaluate` (the parameters are part of the options `resolve` sees) while `keys` raises
+    ValueError: the transient Template built from the option's value "requires parameters" -/
+def c09Env : Env :=
+  { β := fun f a k => .ok (.app f a k), binds := fun _ _ => .error "x", ov := fun _ => default, ds := fun _ => default,
+    cacheKind := fun _ => .memory }
+
+def f26Template : Expr := .template 2 "{:n:} -> {PATTERN}" [("n", .option 1 "N" Option.none Option.none)]
+def f26Options : V := .dict [("N", .int 7), ("PATTERN", .str "part-{:n:}.csv")]
+
+theorem keys_fail_where_substitution_succeeds_F26 :
+    (match ev c09Env 20 .evaluate f26Template f26Options {} with
+      | some (.ok v, _) => decide (v = .str "7 -> part-7.csv")
+      | _ => false) = true ∧
+    (match ev c09Env 20 .keys f26Template f26Options {} with
+      | some (.error err, _) => decide (err = errOther "ValueError")
+      | _ => false) = true := by
+  constructor <;> decide +kernel
 
 /-! ### the scanner agrees with the regex on the documented shapes (kernel-evaluated) -/
 example : findKeys "a{A}b{S.X}c" = ["A", "S.X"] := by decide +kernel
